@@ -12,6 +12,7 @@ def build(rng, depth, k, in_module):
     expected = []
     failexpr, ename = rng.choice(FAILS)
     kind = rng.randrange(3)
+    rec = rng.choice([0, 0, 1, 2, 3]) if (depth >= 2 and not in_module) else 0
     def filler(lines):
         for _ in range(rng.randrange(0, 3)):
             lines.append(rng.choice(["", "// comment", "u%d := %d" % (rng.randrange(1000), rng.randrange(9)), "   "]))
@@ -27,6 +28,16 @@ def build(rng, depth, k, in_module):
                 elif kind == 1: lines.append("  throw \"boom\"")
                 else: lines.append("  y := %s" % failexpr)
                 fn_line[d] = len(lines)
+            elif d == 1 and rec > 0:
+                # the outermost function first calls itself `rec` times through one call site
+                lines[-1] = "var %s1" % fname_prefix
+                lines.append("%s1 = func(x) {" % fname_prefix)
+                lines.append("  if x > 0 {")
+                lines.append("    r := %s1(x - 1)" % fname_prefix); fn_line["rec"] = len(lines)
+                lines.append("    return r")
+                lines.append("  }")
+                lines.append("  r := %s%d(x)" % (fname_prefix, d + 1)); fn_line[d] = len(lines)
+                lines.append("  return r")
             else:
                 lines.append("  r := %s%d(x)" % (fname_prefix, d + 1)); fn_line[d] = len(lines)
                 lines.append("  return r")
@@ -56,8 +67,9 @@ def build(rng, depth, k, in_module):
             else: lines.append("x := 1"); lines.append("z := %s" % failexpr)
             expected.append(("(main)", len(lines)))
         else:
-            lines.append("res := f1(1)")
+            lines.append("res := f1(%d)" % rec)
             expected.append(("(main)", len(lines)))
+            for _ in range(rec): expected.append(("(main)", fl["rec"]))
             for d in range(1, depth + 1): expected.append(("(main)", fl[d] + 0))
             lines.append("return res")
     return "\n".join(lines) + "\n", mods, expected, ("error" if kind == 1 else ename)
@@ -112,7 +124,7 @@ def run(rep, br, proofs, rng, tier):
             rep.violation({"property": "C16", "kind": "correspondence", "why": "line table model (Pos/LineTable.v unpack) and SourceFileSet.Position disagree", "case": m["line"][:1500], "impl": m["expect"], "model": model.get(m["id"])}, found=False)
     rep.coverage.update({
         "evaluations": len(cases) + len(mcases), "distinct_nontrivial": ok,
-        "rule": "generated one-statement-per-line layouts (random blank lines, comments and filler declarations) in which an error (failing operator, failing builtin, bad index, call of a non-callable, wrong argument count, thrown value) escapes from call depth 0,1,2,3,5,8, in the main file or inside an imported source module, x optimizer on/off x encode/decode x k prepended blank lines; expected lines computed by the generator; positions must lie inside the named file; real line tables and sampled offsets re-resolved by the Coq unpack; non-trivial = a trace was produced and matched",
+        "rule": "generated one-statement-per-line layouts (random blank lines, comments and filler declarations) in which an error (failing operator, failing builtin, bad index, call of a non-callable, wrong argument count, thrown value) escapes from call depth 0,1,2,3,5,8, in the main file or inside an imported source module, optionally through 1-3 recursive activations of one call site, x optimizer on/off x encode/decode x k prepended blank lines; expected lines computed by the generator; positions must lie inside the named file; real line tables and sampled offsets re-resolved by the Coq unpack; non-trivial = a trace was produced and matched",
         "samples": [cases[0]["src"], str(cases[0]["expected"])],
         "traces_matched": ok, "unpack_compared": len(mcases), "disagreements": len(dis), "oracle_failures": len(fails)})
 
